@@ -220,6 +220,9 @@ func c10Face(r *mc.Reporter, f *corpus.File, fi int, ld *ot.Loader, tier string)
 					r.Violation("C10:hb:"+key+":"+kind, &cs, fmt.Sprintf("%s glyph %d coords %v: %s", path.Base(name), g, coords, msg))
 					break
 				}
+				if r.WantSample() && g == gl[len(gl)/2] {
+					r.Sample(map[string]any{"file": name, "face": fi, "glyph": g, "coords": coords, "h_advance": adv, "extents": fmt.Sprintf("%+v", ext), "outline_ops_libharfbuzz": len(ref.Draw(uint32(g)))})
+				}
 				r.Outcome(uint64(adv)<<20^uint64(uint32(ext.Width))^uint64(g%7)<<50, adv != 0)
 			}
 		}
